@@ -14,6 +14,7 @@ import (
 // Rules:
 //  - If a message contains a plural, it must be the sole child.
 //  - A plural contains exactly {case 1} and {default} cases.
+//  - A plural case contains no further plural: the msgid would silently drop it.
 //  - No text reads as a placeholder ({NAME}): a msgid cannot escape it, and the
 //    translation would be rendered with a placeholder in its place.
 func Validate(n *ast.MsgNode) error {
@@ -43,6 +44,9 @@ func readsBack(body ast.ParentNode) error {
 	var buf bytes.Buffer
 	var names []string
 	for _, child := range body.Children() {
+		if _, ok := child.(*ast.MsgPluralNode); ok {
+			return fmt.Errorf("a plural inside a plural case has no place in a msgid")
+		}
 		writeph(&buf, child)
 		if ph, ok := child.(*ast.MsgPlaceholderNode); ok {
 			names = append(names, ph.Name)
